@@ -322,11 +322,15 @@ inductive IptDiff
 def getExtra (a : List (Str × α)) (b : List (Str × β)) : List Str :=
   (sortStrs (keysA a)).filter (fun k => !hasA k b)
 
-/-- `checkExtra`: none if the key sets agree. -/
+def commaJoin (l : List Str) : Str := joinWith [','] l
+
+/-- `checkExtra`: none if the key sets agree.  As in the Go code the test is made on the JOINED
+names (`aExtra != "" || bExtra != ""`), so a single extra key that is the empty string (a line `*`
+declares a table with the empty name) goes unnoticed. -/
 def checkExtra (a : List (Str × α)) (b : List (Str × β)) : Option (List Str × List Str) :=
   let ae := getExtra a b
   let be := getExtra b a
-  if ae.isEmpty && be.isEmpty then none else some (ae, be)
+  if (commaJoin ae).isEmpty && (commaJoin be).isEmpty then none else some (ae, be)
 
 def diffRule (t c : Str) (i : Nat) (a b : Pairs) : IptDiff :=
   match checkExtra a b with
@@ -393,8 +397,6 @@ def tableLines (t : Str) (cm : Chains) : List FLine :=
 /-- `getIPTablesConfig`. -/
 def getIPTablesConfig (tb : Tables) : List FLine :=
   (sortStrs (keysA tb)).flatMap fun t => tableLines t ((getA t tb).getD [])
-
-def commaJoin (l : List Str) : Str := joinWith [','] l
 
 /-- The candidate first lines of the iptables part of the change script (one candidate except for
 the map-order dependent case). -/
